@@ -367,28 +367,51 @@ SPECS["C17"] = {
 
 
 # ------------------------------------------------------------------------------------------------
-# Server side (harness/src/srv.rs, coq/Server.v, coq/ServerMon.v): C08, C12, C06, C04.
-# One script language and one case format; --prop only biases the generator.
+# Server side (harness/src/srv.rs, coq/Server.v, coq/ServerMon.v): C08, C12, C06, C04 and the
+# server halves of C09, C10, C11, C14.  One script language and one case format; --prop only
+# biases the generator.  `server_part(...)` builds a part for any of them.
 
 SRV_HDR = HDR.format(mods="Transport TimerWheel Server ServerMon Checks.{chk}")
-SRV_TB = COMMON_TB + [
-    "modelled, not verified: tokio bounded mpsc (FIFO permit waiters; a permit returns when the receiver pops), "
-    "tokio unbounded mpsc, futures Abortable (abort flag checked before the inner future is polled), Fuse, "
-    "tokio-util DelayQueue at millisecond granularity (a timer is due when clock >= start + when_ms); the order "
-    "in which the real timer wheel hands out several due timers is replayed by an executable copy of the wheel "
-    "(coq/TimerWheel.v) that the theorems do not depend on: a disagreement surfaces as the observation OOracle",
-    "harness: virtual clock by clock_gettime interposition + tokio paused clock; every poll by hand outside any "
-    "runtime task; scripted transport (Rust twin of Transport.v's stransport)",
+SRV_TB = [
+    "server model: tokio bounded mpsc (FIFO permit waiters; a permit returns when the receiver pops), tokio "
+    "unbounded mpsc, futures Abortable (abort flag checked before the inner future is polled), Fuse, tokio-util "
+    "DelayQueue at millisecond granularity (a timer is due when clock >= start + when_ms) are modelled, not "
+    "verified; the order in which the real timer wheel hands out several due timers is replayed by an executable "
+    "copy of the wheel (coq/TimerWheel.v) that the theorems do not depend on: a disagreement would surface as the "
+    "observation OOracle, i.e. as a correspondence failure",
+    "server harness: virtual clock by clock_gettime interposition + tokio paused clock; every poll by hand outside "
+    "any runtime task; scripted transport (Rust twin of Transport.v's stransport); handlers are scripted futures "
+    "wrapped by the real InFlightRequest::execute; a poll is aborted after 10 000 transport calls",
 ]
-SRV_RULE = ("scripts over ops {P poll Requests, R request, X cancel, E eof, r/f/c sink answers, F<m> one-shot fault, "
-            "D drain, H<k> handler step through the real execute(), Q/Y drop execute future / unexecuted request, "
-            "Z drop channel, A advance clock}; cfg: limit none/0..3, response buffer 1..3, transport capacity "
-            "0..3 coupled/independent; 6..60 ops (C11 bias: a sixth of the scripts 300..420 ops); generated WHILE "
-            "RUNNING the real code so that the next op can look at the real in-flight count, handler phases, "
+SRV_RULE = ("server scripts over ops {P poll Requests, R request, X cancel, E eof, r/f/c sink answers, F<m> one-shot "
+            "fault, D drain, H<k> handler step through the real execute(), Q/Y drop execute future / unexecuted "
+            "request, Z drop channel, A advance clock}; cfg: limit none/0..3, response buffer 1..3, transport "
+            "capacity 0..3 coupled/independent; 6..60 ops (C11 bias: a sixth of the scripts 300..420 ops); generated "
+            "WHILE RUNNING the real code so that the next op can look at the real in-flight count, handler phases, "
             "clock and sink state; all randomness from one splitmix64 stream; distinct = distinct script text; ")
 
 
-def _srv_known_bit(pid):
+def server_part(pid, chk, bias, nontrivial, rule_tail, quick=450, thorough=16000, name="server", **extra):
+    """A part that runs the server driver with the given generator bias and Checks module."""
+    part = {
+        "name": name,
+        "harness": "srv",
+        "gen_args": ["--prop", bias],
+        "cases_header": SRV_HDR.format(chk=chk),
+        "case_term": lambda c: f"({c['cfg']}, {c['ops']}, {c['obs']})",
+        "quick": {"count": quick},
+        "thorough": {"count": thorough},
+        "sweeps": [["--prop", bias]],
+        "nontrivial": nontrivial,
+        "rule": SRV_RULE + rule_tail,
+        "max_shrinks": 3,
+        "shrink_budget": 24,
+    }
+    part.update(extra)
+    return part
+
+
+def srv_known_bit(pid, part):
     """Known-class predicate on the SHRUNK script: re-run it and ask the check function whether the
     rejection is fully explained by the known class (verdict bit 2: the full-strength monitor rejects,
     the relaxed monitor that exempts exactly that class's obligations accepts)."""
@@ -403,34 +426,9 @@ def _srv_known_bit(pid):
             f.write(small + "\n")
         V.harness(["srv", "run", "--in", ops, "--out", tsv])
         cases = V.read_cases(tsv)
-        codes = V.eval_cases(pid, SPECS[pid], cases)
+        codes = V.eval_cases(pid, part(), cases)
         return bool(codes[0] & 4)
     return pred
-
-
-def _srv_spec(pid, chk, bias, nontrivial, rule_tail, level_text, level_note, assumptions, quick=450, thorough=16000, **extra):
-    s = {
-        "pid": pid,
-        "harness": "srv",
-        "gen_args": ["--prop", bias],
-        "coq_targets": [f"Properties/{pid}.vo", f"Checks/{chk}.vo"],
-        "cases_header": SRV_HDR.format(chk=chk),
-        "case_term": lambda c: f"({c['cfg']}, {c['ops']}, {c['obs']})",
-        "quick": {"count": quick},
-        "thorough": {"count": thorough},
-        "sweeps": [["--prop", bias]],
-        "nontrivial": nontrivial,
-        "rule": SRV_RULE + rule_tail,
-        "trusted_base": SRV_TB,
-        "level_text": level_text,
-        "level_note": level_note,
-        "design_ref": f"DESIGN.md section 6 ({pid}), section 7 (K1, K2, B1), Appendix A.2",
-        "assumptions": assumptions,
-        "max_shrinks": 3,
-        "shrink_budget": 24,
-    }
-    s.update(extra)
-    return s
 
 
 SRV_ASSUME_ATOMIC = ("one op (one poll of the Requests stream, one poll or drop of one execute() future, one "
@@ -440,29 +438,25 @@ SRV_ASSUME_B1 = ("reuse_only_after_completion (B1): the peer re-sends a request 
 SRV_ASSUME_STOP = ("stops_after_error: the application does not poll the Requests stream again after it yielded an "
                    "error (tarpc's execute() stops there); the server does not latch transport failures")
 SRV_ASSUME_CLOCK = "virtual clock below 2^35 ms (the DelayQueue's idle-wheel range limit is an environment hypothesis of C16)"
+SRV_K1_WITNESS = "L=1,B=1,C=0,K=c|R1.1000.7.5 P X1.7 R2.1000.7.6 P"
+SRV_K2_WITNESS = "L=1,B=1,C=0,K=c|R1.100.7.5 P H0 r0 A400 P H0 r1 P H0"
 
-SPECS["C08"] = _srv_spec(
+C08_PART = server_part(
     "C08", "C08check", "c08",
     nontrivial=lambda c: "yield" in c["tags"] and ("resp-write" in c["tags"] or "req-dup-inflight" in c["tags"]
                                                    or "handler-aborted" in c["tags"]),
     rule_tail="C08 bias: fresh / duplicate-in-flight / reused-after-completion ids, cancels and closes interleaved, "
               "handler completion in every order, response buffers 1..3; non-trivial = the real channel yielded a "
-              "request and then wrote a response, ignored a duplicate, or aborted a handler",
-    level_text="TO BE FILLED", level_note="TO BE FILLED",
-    assumptions=[SRV_ASSUME_ATOMIC, SRV_ASSUME_B1, SRV_ASSUME_STOP],
-)
-SPECS["C12"] = _srv_spec(
+              "request and then wrote a response, ignored a duplicate, or aborted a handler")
+C12_PART = server_part(
     "C12", "C12check", "c12",
     nontrivial=lambda c: "throttle" in c["tags"] or "yield-fills-limit" in c["tags"],
     rule_tail="C12 bias: limits 0..3, cancels adjacent to requests (K1's shape), handler completion and response "
               "writing in every order, sink not ready; non-trivial = the real limiter throttled a request or a yield "
               "filled the limit",
-    level_text="TO BE FILLED", level_note="TO BE FILLED",
-    assumptions=[SRV_ASSUME_ATOMIC],
-    known_sigs={"FreedInSamePoll": _srv_known_bit("C12")},
-    known_witness={"FreedInSamePoll": "L=1,B=1,C=0,K=c|R1.1000.7.5 P X1.7 R2.1000.7.6 P"},
-)
-SPECS["C06"] = _srv_spec(
+    known_sigs={"FreedInSamePoll": srv_known_bit("C12", lambda: C12_PART)},
+    known_witness={"FreedInSamePoll": SRV_K1_WITNESS})
+C06_PART = server_part(
     "C06", "C06check", "c06",
     nontrivial=lambda c: any(t in c["tags"] for t in ("poll@deadline", "poll@deadline-1", "poll@deadline+1",
                                                        "aborted-after-deadline", "expired-on-arrival")),
@@ -470,23 +464,67 @@ SPECS["C06"] = _srv_spec(
               "expired to beyond the timer range, limiter x sink-not-ready x clock steps; non-trivial = the real "
               "channel was polled within 1 ms of a live request's deadline, or aborted a handler after its deadline, "
               "or received a request that had already expired",
-    level_text="TO BE FILLED", level_note="TO BE FILLED",
-    assumptions=[SRV_ASSUME_ATOMIC, SRV_ASSUME_B1, SRV_ASSUME_STOP, SRV_ASSUME_CLOCK],
-    known_sigs={"LimiterBlockedOnSink": _srv_known_bit("C06")},
-    known_witness={"LimiterBlockedOnSink": "L=1,B=1,C=0,K=c|R1.100.7.5 P H0 r0 A400 P H0 r1 P H0"},
-)
-SPECS["C04"] = _srv_spec(
+    known_sigs={"LimiterBlockedOnSink": srv_known_bit("C06", lambda: C06_PART)},
+    known_witness={"LimiterBlockedOnSink": SRV_K2_WITNESS})
+C04_PART = server_part(
     "C04", "C04check", "c04",
     nontrivial=lambda c: any(t in c["tags"] for t in ("cancel@notstarted", "cancel@running", "cancel@waitbuf",
-                                                       "cancel@buffered", "cancel@written", "chain")),
+                                                       "cancel@buffered", "cancel@written")),
     rule_tail="C04 bias: a Cancel at every position relative to handler start, completion, response buffering and "
-              "response write, 1..4 concurrent requests, with/without limiter, sink-not-ready periods; plus real "
-              "client->server chains of depth 1..3; non-trivial = the real channel read a Cancel for a request it had "
-              "yielded (any phase), or a chain was run",
-    level_text="TO BE FILLED", level_note="TO BE FILLED",
-    assumptions=[SRV_ASSUME_ATOMIC, SRV_ASSUME_B1, SRV_ASSUME_STOP],
-)
+              "response write, 1..4 concurrent requests, with/without limiter, sink-not-ready periods; non-trivial = "
+              "the real channel read a Cancel for a request it had yielded (any phase)")
+C04_CHAIN_PART = {
+    "name": "chain",
+    "harness": "srv",
+    "gen_args": ["--prop", "c04chain"],
+    "cases_header": HDR.format(mods="ServerChain Checks.C04chain"),
+    "case_term": lambda c: f"({c['cfg']}, {c['ops']}, {c['obs']})",
+    "quick": {"count": 150},
+    "thorough": {"count": 3000},
+    "sweeps": [["--prop", "c04chain"]],
+    "nontrivial": lambda c: "chain-quiescent-after-abandon" in c["tags"] or "chain-deadline-passes" in c["tags"],
+    "rule": "REAL chains of depth 1..3: node i = client::new + dispatch over an in-memory transport to "
+            "BaseChannel::requests(); the handler of server i makes a nested call with its context on client i+1; the "
+            "last handler waits for the script; wake-driven execution with the real wakers, virtual time; scripts "
+            "{call, single polls of head/dispatch/stream/handlers along the pipeline, w = run to quiescence, x = abandon "
+            "the head call, leaf = let the last handler finish, t = advance clock}: the head call is abandoned after the "
+            "request has propagated 0..all hops, or after completion, or the 10 s deadline passes instead; no model is "
+            "compared for chains, the monitor c04_chain_ok alone decides (after abandonment + quiescence every "
+            "started handler has ended and every server has 0 in flight); non-trivial = abandonment (or deadline) "
+            "followed by a run to quiescence",
+    "max_shrinks": 3,
+    "shrink_budget": 20,
+}
 
+
+def _server_spec(pid, parts, level_text, level_note, assumptions):
+    chks = []
+    for p in parts:
+        chks.append("Checks/" + p["cases_header"].split("Checks.")[-1].split(".")[0] + ".vo")
+    return {
+        "pid": pid,
+        "coq_targets": [f"Properties/{pid}.vo"] + chks,
+        "parts": parts,
+        "trusted_base": COMMON_TB + SRV_TB,
+        "level_text": level_text,
+        "level_note": level_note,
+        "design_ref": f"DESIGN.md section 6 ({pid}), section 7 (K1, K2, B1), Appendix A.2",
+        "assumptions": assumptions,
+    }
+
+
+SPECS["C08"] = _server_spec(
+    "C08", [C08_PART], level_text="TO BE FILLED", level_note="TO BE FILLED",
+    assumptions=[SRV_ASSUME_ATOMIC, SRV_ASSUME_B1, SRV_ASSUME_STOP])
+SPECS["C12"] = _server_spec(
+    "C12", [C12_PART], level_text="TO BE FILLED", level_note="TO BE FILLED",
+    assumptions=[SRV_ASSUME_ATOMIC])
+SPECS["C06"] = _server_spec(
+    "C06", [C06_PART], level_text="TO BE FILLED", level_note="TO BE FILLED",
+    assumptions=[SRV_ASSUME_ATOMIC, SRV_ASSUME_B1, SRV_ASSUME_STOP, SRV_ASSUME_CLOCK])
+SPECS["C04"] = _server_spec(
+    "C04", [C04_PART, C04_CHAIN_PART], level_text="TO BE FILLED", level_note="TO BE FILLED",
+    assumptions=[SRV_ASSUME_ATOMIC, SRV_ASSUME_B1, SRV_ASSUME_STOP])
 
 # ---------------------------------------------------------------------------------------------
 # Client-side parts: one driver (harness `cli`), one model (Client.v), one monitor fold
@@ -637,6 +675,8 @@ SPECS["C16"] = {
 
 def _client_only(pid, prop, checks_mod, nontrivial, extra_rule, level_text, level_note, sweeps=None):
     part = client_part(prop, checks_mod, nontrivial, extra_rule)
+    if prop == "c05":
+        part["cases_header"] = HDR.format(mods=f"Transport Client ClientS ClientMon ClientMon2 Checks.{checks_mod}")
     if sweeps:
         part["sweeps"] = sweeps
         part["rule"] += "; thorough adds every sequence of 5 ops over {poll call 0/1, poll dispatch, " \
@@ -682,9 +722,10 @@ SPECS["C05"] = _client_only(
     "transmission time) for deadlines within MAX_TIMEOUT (365 d, the clamp introduced by fix 44cf918). Tied to the "
     "real client under virtual time (clock stepped to deadline-1, deadline, deadline+1; replies racing expiry; "
     "queueing delay from a not-ready sink or a full in-flight table).",
-    _CLIENT_NOTE + "Promptness ('once its deadline passes, to timer granularity') is stated as the separate lemma "
-    "expiry_prompt about the model and checked on the code by correspondence; deadlines beyond 365 days fire at the "
-    "clamp and are exempted by the monitor.")
+    _CLIENT_NOTE + "Promptness ('once its deadline passes, to timer granularity') is the second theorem "
+    "C05_client_prompt (monitor ClientMon2.c05p_ok, also run on the implementation's traces): after a dispatch poll "
+    "that returned Pending at clock T no transmitted request that is due at T leaves its caller pending. Deadlines "
+    "beyond 365 days fire at the clamp and are exempted by the monitors.")
 
 SPECS["C18"] = _client_only(
     "C18", "c18", "C18client", has("wire-cancel", "in-flight>=1"),
@@ -783,6 +824,27 @@ SPECS["C09"] = {
                   "is being added from the server model. 'None hangs' is proved for explicit polls of the model; that the "
                   "tasks are actually woken is C02's subject.",
     "design_ref": "DESIGN.md section 6 (C09)",
+    "assumptions": ["one op is atomic (one poll, one drop step, one delivery)",
+                    "fewer than 2^64 operations (request ids do not wrap)"],
+}
+
+
+SPECS["C10"] = {
+    "pid": "C10",
+    "coq_targets": ["Properties/C10.vo", "Checks/C10client.vo"],
+    "parts": [client_part("c10", "C10client", has("last-handle-dropped", "dispatch:ok"),
+                          "the last handle was dropped or the real dispatch completed successfully")],
+    "trusted_base": COMMON_TB + CLIENT_TB,
+    "level_text": "Client half proved: C10_client_monitor - for EVERY transport, configuration and op list the client model "
+                  "never writes after poll_close was called, calls poll_close only when no handle or live call future is left, "
+                  "all calls are done or abandoned and every abandoned transmitted request has been cancelled on the wire (or "
+                  "had ended), completes successfully only after end-of-stream or a completed close, and leaves no caller "
+                  "pending once it was dropped or failed. Tied to the real client by scripts that drop handles, close or "
+                  "half-close the peer at every point with queued, in-flight, abandoned and completed calls.",
+    "level_note": _CLIENT_NOTE + "Server half (the Requests stream ends only after inbound EOF, no request in flight and a "
+                  "completed flush) is being added from the server model. 'Fails instead of hanging' after peer EOF relies "
+                  "on the executor dropping the finished dispatch future; the model makes that an explicit op.",
+    "design_ref": "DESIGN.md section 6 (C10)",
     "assumptions": ["one op is atomic (one poll, one drop step, one delivery)",
                     "fewer than 2^64 operations (request ids do not wrap)"],
 }
